@@ -8,7 +8,7 @@
    Ok". *)
 From Coq Require Import List ZArith Bool.
 From Mamba Require Import Codec.Model Codec.Spec Codec.G6Header Codec.G6Proofs Codec.TotalG6
-  Codec.S6Decode Codec.TotalS6.
+  Codec.S6Decode Codec.TotalS6 Codec.TotalS6Re.
 Import ListNotations.
 Open Scope Z_scope.
 
@@ -92,3 +92,16 @@ Theorem C08_sparse6_decode_is_format : forall s0,
   sparse6_decode s0 = s6_result (strip hdr_sparse6 s0).
 Proof. exact sparse6_decode_refines. Qed.
 Print Assumptions C08_sparse6_decode_is_format.
+
+(* Whenever Sparse6Decode succeeds, re-encoding the result and decoding again gives the same
+   graph — for every string of fewer than 10^16 bytes (so that the int expression (k+1)*2*m in
+   the encoder's capacity computation cannot wrap). *)
+Theorem C08_sparse6_reencode : forall s0 n el, len s0 < 10000000000000000 ->
+  sparse6_decode s0 = Ok (n, el) ->
+  exists s1, sparse6_encode (graph_of_edges (Z.to_nat n) el) = Ok s1 /\ sparse6_decode s1 = Ok (n, el).
+Proof. exact sparse6_reencode. Qed.
+Print Assumptions C08_sparse6_reencode.
+Example C08_sparse6_reencode_nonvacuous :
+  sparse6_decode [58; 67; 111; 78; 111; 78] = Ok (4, [(2, 0); (2, 1)]) /\
+  sparse6_encode (graph_of_edges 4 [(2, 0); (2, 1)]) = Ok [58; 67; 111; 74].
+Proof. vm_compute. split; reflexivity. Qed.
